@@ -113,6 +113,30 @@ CHECKS = {
         note=TB + ' Ownership of spans is checked on the real heap by ASan (no Coq ownership model); coordinate arithmetic is compared '
                   'on small integers; the expected flattened text is canonicalised by the implementation\'s own parser.',
         design='§4 C15'),
+    'C07': dict(
+        technique='Coq proofs for the grammar components (tags, integers, gate targets, perfect name hash over the generated table) + '
+                  'correspondence of the real parser/printer with the intended structure, rejection rules, fuzzing under ASan',
+        text='Proof: tag_roundtrip and tag_output_bounded (escape/unescape for every byte string, reader total and bounded by its input), '
+             'read_print_dec, read_write_target / read_u24_print (every target kind, 24-bit limit), table_hash_perfect (gate_name_to_hash '
+             'with multipliers regenerated from gates.h is collision-free on all names and aliases of the generated table). Tie H: '
+             'structured circuits over every gate of the table with aliases, mixed case, whitespace, comments, CRLF, 63-bit repeat '
+             'counts, escaped tags and fusable neighbours through the string/file/stop_asap entry points must parse to the intended '
+             'structure, print, re-parse equal to six digits and then round trip exactly; API-built circuits with arbitrary tag bytes '
+             'and extreme arguments; 57 rejection rules; mutation/truncation/random-byte fuzz under ASan with a 20 s limit per input; '
+             'object reuse after rejected appends; memory growth on inputs of size n, 2n, 4n.',
+        note=TB + ' The full grammar is not modelled in Coq (components are); number formatting (printf %g/strtod), memory safety and '
+                  'memory growth are measured, not proved. Known finding D14 (non-finite arguments print but do not parse).',
+        design='§4 C07'),
+    'C08': dict(
+        technique='Coq proof that recursive flattening equals naive execution of the unrolled model + correspondence of the real '
+                  'parser/printer/flatten, bit-exact double round trips, rejection rules, fuzzing under ASan',
+        text='Proof: flatten_is_naive_execution (flattened_helper / iter_flatten_error_instructions_helper with a running detector '
+             'offset through nested repeat blocks = unrolling then executing one instruction at a time; any nesting, counts, offsets), '
+             'tag and decimal round trips shared with C07. Tie H: random models (repeat to 2^59, shifts, separators, escaped tags, 60-bit '
+             'ids, awkward doubles incl. subnormals) through string/file parsers: intended structure and bit-exact print/parse round '
+             'trip; 28 rejection rules; fuzz under ASan; flattened() and iter_flatten_error_instructions against the extracted model.',
+        note=TB + ' The DEM parser is not modelled beyond tags/integers; coordinate shifts are checked by C15\'s interpreter, not in DemFlat.',
+        design='§4 C08'),
 }
 
 PENDING = 'check not yet built in this round (see DESIGN.md §7 phasing); the Coq model for it is planned, not claimed'
